@@ -1,0 +1,32 @@
+//go:build verif
+// +build verif
+
+package fasthttp
+
+// Machine-checked contracts for the fasthttp client transport (comment-only file).
+
+// (assumed) header copying and cookie helpers: they touch request/response headers only
+//@ func addRequestHeader
+//@   havoc
+//@ func getResponseHeader
+//@   havoc
+//@ func (*cookieManager).loadCookie
+//@   havoc
+//@ func (*cookieManager).saveCookie
+//@   havoc
+
+// one exchange per call; the request body is exactly the request; what is returned is a private
+// copy of the complete response body (the response object goes back to fasthttp's pool), 413 is
+// the request-too-large error, any other status an error
+//@ func (*Transport).Transport
+//@   prop C12 C13 C14
+//@   havoc
+//@   flag typeassert=panic
+//@   requires trans != nil
+//@   modifies ghost.fh_do, ghost.fh_ok, ghost.dict_has[*], ghost.dict_int[*]
+//@   atcall SetBody [request_body_is_exactly_the_request] arr(arg1) == arr(request) && off(arg1) == off(request) && len(arg1) == len(request)
+//@   ensures [at_most_one_http_exchange] ghost.fh_do <= old(ghost.fh_do) + 1
+//@   ensures [success_only_after_an_exchange] err == nil ==> ghost.fh_do == old(ghost.fh_do) + 1 && ghost.fh_ok == 1
+//@   ensures [too_large_status_is_the_too_large_error] ghost.fh_do == old(ghost.fh_do) + 1 && ghost.fh_ok == 1 && ghost.fh_status[addr(resp.Header)] == 413 ==> err == core.ErrRequestEntityTooLarge && response == nil
+//@   ensures [any_other_status_than_ok_is_an_error] ghost.fh_do == old(ghost.fh_do) + 1 && ghost.fh_ok == 1 && ghost.fh_status[addr(resp.Header)] != 200 ==> err != nil && response == nil
+//@   ensures [response_is_a_private_copy] err == nil && response != nil ==> isnew(arr(response))
